@@ -68,7 +68,8 @@ def make(name, rng):
             return dict(est=est, gen=gen, pf=True, sup=False)
         if name == "DualVigilance":
             rho = rng.choice([0.5, 0.75, 0.875])
-            est = artlib.DualVigilanceART(_fz(rng, rho=rho), rho_lower_bound=float(rng.choice([0.0, 0.125, 0.25])))
+            # lower bounds from "everything is one cluster" up to just below the upper vigilance (several clusters of several categories)
+            est = artlib.DualVigilanceART(_fz(rng, rho=rho), rho_lower_bound=float(rng.choice([0.0, 0.125, 0.25, rho / 2, rho - 0.125, rho - 0.0625])))
             d = rng.choice([1, 2])
             return dict(est=est, gen=lambda n: (cc_rows(rng, n, d), None), pf=True, sup=False)
         if name == "Topo":
@@ -258,12 +259,24 @@ def describe(name, z, X, y, ops, mode, eps, i):
             "reset_function_bits": (z["veto"].bits if z.get("veto") is not None else None)}
 
 
-def book_oracle_all(rng, n):
+def gen_refit_history(rng, name):
+    """a model that already holds several categories / clusters is fitted again (on a permuted part of the data, then on
+    all of it): every fit starts from nothing, whatever the previous one left"""
+    z = make(name, rng)
+    n = rng.randrange(8, 16)
+    X, y = z["gen"](n)
+    idx = list(range(nrows(X)))
+    second = rng.sample(idx, rng.randrange(2, len(idx)))
+    third = list(reversed(idx))
+    return z, X, y, [("fit", idx), ("fit", second), ("fit", third)], rng.choice(B.MODES), rng.choice([0.0, 1 / 1024])
+
+
+def book_oracle_all(rng, n, gen=None):
     import c05
     fails, count = [], 0
     for _ in range(n):
         name = rng.choice(NAMES)
-        z, X, y, ops, mode, eps = gen_zoo_history(rng, name, refusals=True)
+        z, X, y, ops, mode, eps = gen_zoo_history(rng, name, refusals=True) if gen is None else gen(rng, name)
         est = z["est"]
         presented = 0
         supplied = []
@@ -308,6 +321,13 @@ def book_oracle_all(rng, n):
                 if why:
                     bad = (lab, why)
                     break
+            if not bad and name == "DualVigilance":
+                # the cluster book-keeping of the wrapper: one map entry per stored base category, onto 0 .. n_clusters-1
+                mp, nb = dict(est.map), len(est.base_module.W)
+                if sorted(mp) != list(range(nb)):
+                    bad = ("DualVigilanceART", f"map has entries for categories {sorted(mp)} but the base module stores {nb}")
+                elif sorted(set(mp.values())) != list(range(est.n_clusters)):
+                    bad = ("DualVigilanceART", f"map values {sorted(set(mp.values()))} are not 0 .. n_clusters-1 = {est.n_clusters - 1}")
             if bad:
                 fails.append({"signature": f"{bad[0]}.{op}/book", "text": f"{bad[0]}: {bad[1]}",
                               "replay": describe(name, z, X, y, ops, mode, eps, i)})
